@@ -233,6 +233,37 @@ func TestC02_StructuredParts(t *testing.T) {
 			parts[i] = cfgs[i].new()
 			models[i] = newSkModel(m)
 			neg := rapid.IntRange(0, 3).Draw(t, "negside") == 0
+			if i == 0 && rapid.IntRange(0, 2).Draw(t, "decayed") == 0 {
+				// the receiver had a former life that a decay wiped out in part: unit values far around the centre, then
+				// heavy values (weight w*2^600) near it, two reweightings by 2^-600 (the units become 2^-1200 = 0, exactly)
+				// and one by 2^600 (the heavy ones are back to w). Twin and model only see the heavy values with weight w.
+				sgn := 1.0
+				if neg {
+					sgn = -1
+				}
+				for j, n := 0, rapid.IntRange(1, 6).Draw(t, "lightn"); j < n; j++ {
+					off := rapid.IntRange(30, 200).Draw(t, "lightoff")
+					if rapid.Bool().Draw(t, "lightleft") {
+						off = -off
+					}
+					_ = parts[0].Add(sgn * dom.clamp(m.Value(base+off)))
+				}
+				for j, n := 0, rapid.IntRange(1, 4).Draw(t, "heavyn"); j < n; j++ {
+					v := sgn * dom.clamp(m.Value(base+rapid.IntRange(-6, 6).Draw(t, "heavyoff")))
+					w := float64(rapid.IntRange(2, 9).Draw(t, "heavyw"))
+					if e1, e2 := parts[0].AddWithCount(v, w*0x1p600), twin.AddWithCount(v, w); e1 != nil || e2 != nil {
+						t.Fatalf("C02 structured: add refused: %v %v", e1, e2)
+					}
+					models[0].add(v, w)
+					whole.add(v, w)
+				}
+				for _, f := range []float64{0x1p-600, 0x1p-600, 0x1p600} {
+					if err := parts[0].Reweight(f); err != nil {
+						t.Fatalf("C02 structured: Reweight(%v): %v", f, err)
+					}
+				}
+				cl.label("receiver-partially-decayed")
+			}
 			for _, op := range pagScenario(t, base) {
 				cl.logf("part %d (neg=%v): %s", i, neg, op)
 				feed := func(idx int, w float64) {
